@@ -773,7 +773,9 @@ class Optimizer(object):
             df_samples = df_samples[~df_samples.duplicated(keep="first")]
 
             if len(self.sampled) > 0:
-                df_history = pd.DataFrame(data=self.sampled, columns=hps_names)
+                # same dtype as the samples: the columns of categories of different types
+                # cannot be merged otherwise
+                df_history = pd.DataFrame(data=self.sampled, columns=hps_names, dtype="O")
                 df_merge = pd.merge(df_samples, df_history, on=None, how="inner")
                 df_samples = pd.concat([df_samples, df_merge])
                 df_samples = df_samples[~df_samples.duplicated(keep=False)]
